@@ -173,3 +173,51 @@ func TestVerif_C05_Kernels(t *testing.T) {
 		_ = fmt.Sprint
 	})
 }
+
+
+// The key-length rule must hold on every dispatch path: accelerated, and portable (candoAsm forced off).
+func TestVerif_C05_KeySizeBothPaths(t *testing.T) {
+	rec := stats.Get("C05", "keysize-paths")
+	rec.Exhaustive(true)
+	rec.Rule("complete enumeration: key lengths nil, 0..64 x {default dispatch, accelerated path forced off}: NewCipher returns (nil, KeySizeError) for every length but 16, a working Block for 16 (checked against sm4ref); no panic. Every case non-trivial; distinct by (length, path).")
+	t.Cleanup(stats.FlushAll)
+	saved := candoAsm
+	defer func() { candoAsm = saved }()
+	for _, off := range []bool{false, true} {
+		if off {
+			candoAsm = false
+		} else {
+			candoAsm = saved
+		}
+		for n := -1; n <= 64; n++ {
+			var key []byte
+			if n >= 0 {
+				key = bytes.Repeat([]byte{0x5d}, n)
+			}
+			var c cipher.Block
+			var err error
+			rec.Enumerated(1, fmt.Sprintf("asm-off:%v", off))
+			if p := vt.Catch(func() { c, err = NewCipher(key) }); p != nil {
+				vt.Fail(t, rec, "C05:keysize:panic", "NewCipher(%d-byte key) panicked with the accelerated path off=%v: %v", len(key), off, p)
+				continue
+			}
+			if len(key) == 16 {
+				if err != nil || c == nil {
+					vt.Fail(t, rec, "C05:newcipher:error", "NewCipher(16 bytes) failed (asm off=%v): %v", off, err)
+					continue
+				}
+				got, want := make([]byte, 16), make([]byte, 16)
+				c.Encrypt(got, key)
+				sm4ref.New(key).Encrypt(want, key)
+				if !bytes.Equal(got, want) {
+					vt.Fail(t, rec, "C05:dispatch:keysize-path", "wrong ciphertext on path asm-off=%v", off)
+				}
+				continue
+			}
+			if _, ok := err.(KeySizeError); !ok || c != nil {
+				vt.Fail(t, rec, "C05:keysize:accepted", "NewCipher(%d-byte key) with the accelerated path off=%v returned (%v, %v), want (nil, KeySizeError)", len(key), off, c, err)
+			}
+		}
+	}
+	rec.Sample("keysize", map[string]interface{}{"lengths": "nil, 0..64", "paths": "default, candoAsm=false"})
+}
